@@ -1,5 +1,7 @@
 package redis
 
+import "crypto/tls"
+
 func init() {
 	vsymHarnesses["HarnessC15Lifecycle"] = HarnessC15Lifecycle
 }
@@ -14,6 +16,12 @@ func HarnessC15Lifecycle() {
 	vsymUnwind(400)
 	server := NewServer()
 	server.SetCommandHandler(&vhandler{mode: 0, quiet: true})
+	ports := []string{":6379"}
+	if vsymParamInt("tls", 0) == 1 {
+		server.SetTLSPort(6380)
+		server.SetTLSConfig(&tls.Config{})
+		ports = append(ports, ":6380")
+	}
 	nclients := vsymParamInt("clients", 1)
 	type client struct {
 		conn     *vconn
@@ -41,14 +49,16 @@ func HarnessC15Lifecycle() {
 		}()
 	}
 	probe := func(label string) {
-		// a fresh client is accepted and served
-		c := newVconn(vReqS("PING"))
-		ok := vDial(":6379", c)
-		vsymAssert(ok, "port-bound-after-"+label)
-		vsymQuiesce()
-		vsymAssert(vBytesEq(c.out, []byte("+PONG\r\n")), "client-served-after-"+label)
-		l := vPorts[":6379"]
-		vsymAssert(l != nil && !l.closed && l.waiting == 1, "accept-loop-waiting-on-current-listener-after-"+label)
+		// on every enabled port a fresh client is accepted and served by a loop waiting on the current listener
+		for _, port := range ports {
+			c := newVconn(vReqS("PING"))
+			ok := vDial(port, c)
+			vsymAssert(ok, "port-bound-after-"+label)
+			vsymQuiesce()
+			vsymAssert(vBytesEq(c.out, []byte("+PONG\r\n")), "client-served-after-"+label)
+			l := vPorts[port]
+			vsymAssert(l != nil && !l.closed && l.waiting == 1, "accept-loop-waiting-on-current-listener-after-"+label)
+		}
 	}
 	for i := 0; i < len(seq); i++ {
 		var err error
@@ -89,8 +99,10 @@ func HarnessC15Lifecycle() {
 				vsymFail("no-server-goroutine-remains-when-stop-returns")
 			}
 			vsymQuiesce()
-			l := vPorts[":6379"]
-			vsymAssert(l == nil || l.closed, "port-can-be-bound-again-after-stop")
+			for _, port := range ports {
+				l := vPorts[port]
+				vsymAssert(l == nil || l.closed, "port-can-be-bound-again-after-stop")
+			}
 			vsymAssert(len(server.Conns()) == 0, "registry-empty-after-stop")
 			for _, cl := range clients {
 				if cl.accepted && !cl.inCall {
